@@ -342,6 +342,9 @@ func GenRecSystem(t *rapid.T) (*Grammar, map[string]bool) {
 						// ( x* y? )! has a body that can match nothing, but the group itself cannot
 						used["after_nonempty_group_of_optionals(look-alike)"] = true
 						kids = append(kids, Group("!", Seq(Group("*", c.leaf()), Group("?", leaf()))))
+					} else if rapid.IntRange(0, 7).Draw(t, "namedelided") == 0 {
+						used["after_explicitly_matched_elided_token(look-alike)"] = true
+						kids = append(kids, Ref("WS")) // an elided token the grammar asks for is consumed like any other
 					} else if rapid.IntRange(0, 7).Draw(t, "typedempty") == 0 {
 						used["after_typed_empty_literal(look-alike)"] = true
 						kids = append(kids, TLit("", "Ident")) // "":Ident takes any Ident token
@@ -376,6 +379,12 @@ func GenRecSystem(t *rapid.T) (*Grammar, map[string]bool) {
 				alts = append(alts, kids[0])
 			} else {
 				alts = append(alts, Seq(kids...))
+			}
+			if a == 0 && na > 1 && rapid.IntRange(0, 7).Draw(t, "nullalt") == 0 {
+				// an earlier alternative that can match nothing (a lookahead guard, EOF, an optional): the later
+				// alternatives are still alternatives
+				used["after_alternative_that_can_match_nothing"] = true
+				alts[0] = nullablePrefix()
 			}
 		}
 		var e *Expr
